@@ -97,6 +97,11 @@ struct Global {
 
 extern Global G;
 extern thread_local Thread* tl_me;
+extern thread_local int tl_rt; // >0 while this thread executes simulator code (its own memcpy etc. must not be traced)
+struct RtGuard {
+    RtGuard() { tl_rt++; }
+    ~RtGuard() { tl_rt--; }
+};
 Thread* me();
 
 // scheduler entry points (simgomp.cpp)
